@@ -216,9 +216,15 @@ pub fn transforms(nodes: &[Node], fragmented: bool) -> Vec<(String, Vec<Node>)> 
             continue;
         }
         for extra in [1usize, 8, 12, 16, 24] {
-            let mut t = nodes.to_vec();
-            node_at_mut(&mut t, p).spare = vec![0x5c; extra];
-            out.push((format!("{} spare byte(s) at the end of {}", extra, path_name(nodes, p)), t));
+            // printable, all ones (not UTF-8, huge as a number), zero
+            for fill in [0x5cu8, 0xff, 0x00] {
+                if fill != 0x5c && extra > 8 && &n.cc != b"hdlr" {
+                    continue;
+                }
+                let mut t = nodes.to_vec();
+                node_at_mut(&mut t, p).spare = vec![fill; extra];
+                out.push((format!("{} spare byte(s) {:02x} at the end of {}", extra, fill, path_name(nodes, p)), t));
+            }
         }
     }
     out
@@ -453,6 +459,40 @@ pub fn run(tier: Tier, seed: u64) -> i32 {
             });
         merge(&mut l, r);
         fams.push(json!({"movie": name, "single_transforms": n1, "pairs": th, "fragmented": true}));
+
+        // the same movie delivered as initialization segment + separately opened media segment: every single
+        // transformation of the media segment
+        let (ib, _) = serialize(&init);
+        let seg_singles = transforms(&media, true);
+        let ns = seg_singles.len();
+        let r = seg_singles
+            .par_iter()
+            .fold(Local::default, |mut l, (desc, t)| {
+                let (mb, anchors) = serialize(t);
+                l.evaluations += 1;
+                let opened = guard(|| Mp4Reader::read_header(Cursor::new(&ib[..]), ib.len() as u64).and_then(|i| i.read_fragment_header(Cursor::new(&mb[..]), mb.len() as u64)));
+                match opened {
+                    Ok(Ok(mut r)) => {
+                        l.validated += 1;
+                        let fam = format!("{}: {}", name, desc);
+                        let hexs = if ib.len() + mb.len() <= 4096 { Some(format!("{}|{}", hex(&ib), hex(&mb))) } else { None };
+                        if c09::compare_pub("C12", "separate_segments", &fam, &m, &mut r, &exp, &anchors, hexs, &mut l) {
+                            l.nontrivial += 1;
+                            l.outcome("ok:fragmented_separate_segment");
+                        }
+                    }
+                    o => {
+                        l.violations.push(Violation::new("C12", "transformed_file_does_not_open", json!({"engine": "layout_frag_segment", "movie_name": name, "transform": desc, "input_hex": format!("{}|{}", hex(&ib), hex(&mb))})).obs(json!(format!("{:?}", o.map(|r| r.map(|_| ()).map_err(|e| e.to_string()))))));
+                    }
+                }
+                l
+            })
+            .reduce(Local::default, |mut a, b| {
+                merge(&mut a, b);
+                a
+            });
+        merge(&mut l, r);
+        fams.push(json!({"movie": name, "delivery": "initialization segment + separately opened media segment", "single_transforms_of_the_segment": ns}));
     }
 
     ev.set("evaluations", json!(l.evaluations));
